@@ -71,7 +71,7 @@ fn key_expr(u: &Universe, j: usize, form: &str, idx: Option<u32>) -> KeyExpr {
     }
 }
 
-fn wrap_text(wrap: &str, k: &[String]) -> String {
+pub fn wrap_text(wrap: &str, k: &[String]) -> String {
     match wrap {
         "bare_pk" => format!("pk({})", k[0]),
         "bare_multi" => format!("multi(1,{},{})", k[0], k[1]),
@@ -90,6 +90,29 @@ fn wrap_text(wrap: &str, k: &[String]) -> String {
         "tr_sortedmulti_a" => format!("tr({},sortedmulti_a(2,{},{}))", k[0], k[1], k[2]),
         _ => panic!("bad wrap"),
     }
+}
+
+/// text of key expression j in the given form (as written into descriptors)
+pub fn key_text(u: &Universe, j: usize, form: &str) -> String { key_expr(u, j, form, None).text }
+
+/// the secret-key expression corresponding to `key_text` (same origin, path and wildcard)
+pub fn secret_key_text(u: &Universe, j: usize, form: &str) -> Option<String> {
+    let (xprv, _) = master(u, j);
+    Some(match form {
+        "single" => bitcoin::PrivateKey::new(u.sks[j], Network::Bitcoin).to_wif(),
+        "xpub" => format!("{}", xprv),
+        "xpub_path" => format!("{}/0/{}", xprv, j),
+        "xpub_wild" => format!("{}/{}/*", xprv, j),
+        "origin_wild" => {
+            let hp: Vec<ChildNumber> = vec![ChildNumber::from_hardened_idx(44).unwrap(), ChildNumber::from_hardened_idx(j as u32).unwrap()];
+            let child_prv = xprv.derive_priv(&u.secp, &DerivationPath::from(hp)).unwrap();
+            format!("[{}/44'/{}']{}/1/*", xprv.fingerprint(&u.secp), j, child_prv)
+        }
+        "hardened_wild" => format!("{}/{}/*'", xprv, j),
+        "multipath2" => format!("{}/<0;1>/*", xprv),
+        "multipath3" => format!("{}/<0;1;2>/*", xprv),
+        _ => return None,
+    })
 }
 
 fn template(spk: &[u8]) -> &'static str {
